@@ -77,6 +77,15 @@ func (k msgServer) RemoveRateLimit(goCtx context.Context, msg *types.MsgRemoveRa
 	}
 
 	k.Keeper.RemoveRateLimit(ctx, msg.Denom, msg.ChannelOrClientId)
+
+	// the path's flow is gone: forget the packets that were counted towards it, so that a rate limit added
+	// later for the same path is not decremented by their refunds
+	if err := k.RemoveAllChannelPendingSendPackets(ctx, msg.ChannelOrClientId, msg.Denom); err != nil {
+		return nil, err
+	}
+	if err := k.RemoveAllChannelPendingReceivePackets(ctx, msg.ChannelOrClientId, msg.Denom); err != nil {
+		return nil, err
+	}
 	return &types.MsgRemoveRateLimitResponse{}, nil
 }
 
